@@ -27,6 +27,7 @@ type Region struct {
 	NonZeroAtFree            bool
 	UnlockFailed, FreeFailed bool   // the injected failure hit this region's own unlock/free
 	RealFreeErr              string // the real free of this region failed (not injected)
+	ProtectNoneFailed        bool   // an injected failure hit a request to make this region inaccessible
 }
 
 // MemSpy is the interposed memcall implementation: real system calls + shadow table + fault injector.
@@ -141,6 +142,16 @@ func (m *MemSpy) peek(b []byte, r *Region) bool {
 	return nonZero(b)
 }
 
+// ReadableSecret reports whether the region is mapped, readable by the process as it stands
+// (protection r or rw) and holds something other than zeroes. Regions for which the injected failure
+// was the very request to make them inaccessible are exempt: nothing the caller does can help there.
+func (m *MemSpy) ReadableSecret(r *Region) bool {
+	if !r.Mapped || (r.Prot != "r" && r.Prot != "rw") || r.Len == 0 || r.ProtectNoneFailed {
+		return false
+	}
+	return nonZero(unsafe.Slice((*byte)(unsafe.Pointer(r.Addr)), r.Len))
+}
+
 func (m *MemSpy) Unlock(b []byte) error {
 	fail := m.enter("unlock")
 	r := m.region(b)
@@ -188,6 +199,9 @@ func (m *MemSpy) Free(b []byte) error {
 func (m *MemSpy) Protect(b []byte, f memcall.MemoryProtectionFlag) error {
 	fail := m.enter("protect")
 	if fail {
+		if f == memcall.NoAccess() {
+			m.region(b).ProtectNoneFailed = true
+		}
 		return errMem
 	}
 	if err := memcall.Protect(b, f); err != nil {
